@@ -518,17 +518,25 @@ impl SvgElement {
     ///
     /// Implemented as a method rather than a `From` impl to keep private
     fn into_bytesstart(self) -> BytesStart<'static> {
+        // Attribute values are held unescaped, so must be escaped again on output.
+        // Only the characters which are significant in a double-quoted attribute
+        // value are replaced, leaving e.g. `'` and `>` as they were written.
+        fn escape_attr_value(v: &str) -> String {
+            v.replace('&', "&amp;")
+                .replace('<', "&lt;")
+                .replace('"', "&quot;")
+        }
         let mut bs = BytesStart::new(self.name);
         for (k, v) in &self.attrs {
-            bs.push_attribute(Attribute::from((k.as_bytes(), v.as_bytes())));
+            bs.push_attribute(Attribute::from((
+                k.as_bytes(),
+                escape_attr_value(v).as_bytes(),
+            )));
         }
         if !self.classes.is_empty() {
             bs.push_attribute(Attribute::from((
                 "class".as_bytes(),
-                self.classes
-                    .into_iter()
-                    .collect::<Vec<String>>()
-                    .join(" ")
+                escape_attr_value(&self.classes.into_iter().collect::<Vec<String>>().join(" "))
                     .as_bytes(),
             )));
         }
